@@ -39,6 +39,8 @@ def items(tier):
     out.append({"kind": "two_samples", "method": "single_pass"})
     out.append({"kind": "two_samples", "method": "replacement"})
     out.append({"kind": "misc"})
+    # heaviest items first (the pool takes items in order): non-stratified single pass on 5-6 scores, smoothing with symbolic sizes
+    out.sort(key=lambda it: -((it.get("P", 0) + it.get("N", 0)) ** 3 * (4 if it["kind"] == "single_pass" and it.get("strat") is None else 1) + 400 * bool(it.get("smoothing") and it.get("strat") is None)))
     return out
 
 
